@@ -149,6 +149,30 @@ func main() {
 	n := 0
 	views := []string{"E", "4", "6", "U", "T", "P", "S", "D"}
 	states := []string{"new", "offline", "online"}
+	// allocations, directed: every PayloadID class x source class x host state
+	srcs := []struct {
+		name string
+		mac  []byte
+		ip4  []byte
+		ip6  []byte
+	}{
+		{"client", pgen.MACClient1, []byte{192, 168, 0, 7}, pgen.IP6s[0]},     // tracked by rule (LAN address / link-local)
+		{"clientgua", pgen.MACClient2, []byte{192, 168, 0, 8}, pgen.IP6s[4]}, // global IPv6 from a local host
+		{"own", pgen.DefaultCfg.HostMAC, []byte{192, 168, 0, 129}, pgen.IP6s[1]},
+		{"router", pgen.DefaultCfg.RouterMAC, []byte{192, 168, 0, 11}, pgen.IP6s[4]}, // forwarded global IPv6: untracked by rule
+		{"mcast", pgen.MACMcast4, []byte{192, 168, 0, 9}, pgen.IP6s[0]},
+		{"offlan", pgen.MACClient1, []byte{10, 0, 0, 7}, pgen.IP6s[7]}, // off-LAN IPv4 / multicast IPv6 source
+	}
+	for _, src := range srcs {
+		frames := pgen.ClassFrames(g, src.mac, src.ip4, src.ip6)
+		for id := 1; id <= 29; id++ {
+			for _, st := range states {
+				obs := r.Do("alloc", append(pgen.DefaultCfg.Toks(), st, lib.Hex(frames[id]))...)
+				r.Stat("allocd."+src.name+"."+st+"="+obs, 1)
+				r.Stat(fmt.Sprintf("allocd.id%d=%s", id, obs), 1)
+			}
+		}
+	}
 	pgen.Generate(g, r.Thorough(), func(frame, spare []byte, class string) {
 		n++
 		c := cfgs[0]
